@@ -142,7 +142,7 @@ def find_sub(blocks: list, sub: list) -> int:
     return -1
 
 
-PATCH_NAMES = ["p.ips", "hack [T+Eng1.1].ips", "patch[1].ips", "fix (v2).ips", "a*b.ips", "what?.ips", "sub dir/p.ips", "caf\u00e9.ips", "100%.ips", "p.ips.bak", "~p.ips", "-p.ips", "{p}.ips", "assets/../patches/fix.ips", "assets/../fix.ips"]
+PATCH_NAMES = ["p.ips", "hack [T+Eng1.1].ips", "patch[1].ips", "fix (v2).ips", "a*b.ips", "what?.ips", "sub dir/p.ips", "caf\u00e9.ips", "100%.ips", "p.ips.bak", "~p.ips", "-p.ips", "{p}.ips", "assets/../patches/fix.ips", "assets/../fix.ips", "SD3FIX.IPS", "Title.Ips", "fix.bin", "patchfile", "v1.1/fix.ips", "intro.ips.orig"]
 
 
 def _rename_patch(prog: list, name: str) -> list:
